@@ -31,7 +31,7 @@ M = [
     ("pool-killed-counts-completed", ["C11"], "gwf/backends/local.py", "                    if self.task_states[dep_tid] != LocalStatus.COMPLETED:", "                    if self.task_states[dep_tid] not in (LocalStatus.COMPLETED, LocalStatus.KILLED):"),
     ("pool-swap-failed-killed", ["C13"], "gwf/backends/local.py", "        except TaskFailedError:\n            self.task_states[tid] = LocalStatus.FAILED", "        except TaskFailedError:\n            self.task_states[tid] = LocalStatus.COMPLETED"),
     ("pool-cancel-final", ["C13"], "gwf/backends/local.py", "        if self.task_states[tid] in (LocalStatus.SUBMITTED, LocalStatus.RUNNING):", "        if True:"),
-    ("pool-no-catchall", ["C13"], "gwf/backends/local.py", "        except Exception:\n            logger.exception(\"task %s could not be run\", name)\n            self.task_states[tid] = LocalStatus.FAILED\n", ""),
+    ("pool-no-catchall", ["C13"], "gwf/backends/local.py", "        except Exception:\n            logger.exception(\"task %s could not be run\", name)\n            if proc is not None and proc.returncode is None:\n                await self._gentle_kill(proc)\n            self.task_states[tid] = LocalStatus.FAILED\n", ""),
     ("pool-timeout-completed", ["C13"], "gwf/backends/local.py", "            self.task_states[tid] = LocalStatus.KILLED", "            self.task_states[tid] = LocalStatus.COMPLETED"),
     ("pool-logs-swapped", ["C13"], "gwf/backends/local.py", "                    log_file.write(stderr)", "                    log_file.write(stdout)"),
     # ---- staleness
@@ -73,6 +73,52 @@ M = [
     ("touch-truncate", ["C16"], "gwf/plugins/touch.py", "            Path(path).touch(exist_ok=True)", "            open(path, \"w\").close()"),
     ("touch-ignore-selection", ["C16"], "gwf/plugins/touch.py", "    endpoints = filter_names(graph, targets) if targets else graph.endpoints()", "    endpoints = graph.endpoints()"),
     ("touch-no-hash", ["C16", "C18"], "gwf/plugins/touch.py", "        spec_hashes.update(target)\n", ""),
+    # ---- convergence / prerequisites / states
+    ("sched-trust-backend-completed", ["C06"], "gwf/scheduling.py", "        if submitted_deps:\n            logger.debug(", "        if status_func(target) == BackendStatus.COMPLETED:\n            return Status.COMPLETED\n\n        if submitted_deps:\n            logger.debug("),
+    ("slurm-afterany", ["C07"], "gwf/backends/slurm.py", "--dependency=afterok:{}", "--dependency=afterany:{}"),
+    ("slurm-dep-comma", ["C07", "C02"], "gwf/backends/slurm.py", "\":\".join(dependencies)", "\",\".join(dependencies)"),
+    ("lsf-or", ["C07"], "gwf/backends/lsf.py", "\" && \".join(", "\" || \".join("),
+    ("lsf-ended", ["C07"], "gwf/backends/lsf.py", "f\"done({job_id})\"", "f\"ended({job_id})\""),
+    ("sge-no-hold", ["C07", "C02"], "gwf/backends/sge.py", "        if dependencies:\n            args.append(\"-hold_jid\")\n            args.append(\",\".join(dependencies))\n", ""),
+    ("sge-no-strip", ["C07", "C08"], "gwf/backends/sge.py", "input=script).strip()", "input=script)"),
+    ("local-no-deps", ["C07"], "gwf/backends/local.py", "            deps=deps or [],", "            deps=[],"),
+    ("slurm-substring-id", ["C08"], "gwf/backends/slurm.py", "            if job_id in tracked_jobs:\n                job_states[job_id] = SLURM_JOB_STATES[state]", "            if any(job_id in t for t in tracked_jobs):\n                job_states[job_id] = SLURM_JOB_STATES[state]"),
+    ("slurm-timeout-submitted", ["C08"], "gwf/backends/slurm.py", "    \"TO\": BackendStatus.FAILED,", "    \"TO\": BackendStatus.SUBMITTED,"),
+    ("slurm-no-strip", ["C08", "C02"], "gwf/backends/slurm.py", "return call(\"sbatch\", *args, input=script).strip()", "return call(\"sbatch\", *args, input=script)"),
+    ("slurm-acct-always", ["C08", "C20"], "gwf/backends/slurm.py", "        if self.accounting_enabled:\n            job_states.update", "        if True:\n            job_states.update"),
+    ("base-status-any-job", ["C08"], "gwf/backends/base.py", "        return self._job_states.get(job_id, BackendStatus.UNKNOWN)", "        return self._job_states.get(job_id, next(iter(self._job_states.values()), BackendStatus.UNKNOWN))"),
+    # ---- interrupted runs
+    ("persist-nonatomic", ["C09"], "gwf/utils.py", "    tmp_path = \"{}.tmp\".format(path)\n    with open(tmp_path, \"w\") as tmp_file:\n        json.dump(obj, tmp_file, **kwargs)\n    os.replace(tmp_path, path)", "    with open(path, \"w\") as tmp_file:\n        json.dump(obj, tmp_file, **kwargs)"),
+    ("persist-only-at-exit", ["C09"], "gwf/backends/base.py", "        self._save_tracked_jobs()\n\n    def cancel", "\n    def cancel"),
+    ("hash-before-submit", ["C09", "C18"], "gwf/scheduling.py", "    backend.submit(target, dependencies)\n    spec_hashes.update(target)", "    spec_hashes.update(target)\n    backend.submit(target, dependencies)"),
+    # ---- scripts
+    ("script-no-set-e", ["C10"], "gwf/backends/slurm.py", "        out.append(\"set -e\")\n", ""),
+    ("script-strip-spec", ["C10"], "gwf/backends/sge.py", "out.append(ensure_trailing_newline(target.spec))", "out.append(ensure_trailing_newline(target.spec.strip()))"),
+    ("script-no-cd", ["C10"], "gwf/backends/lsf.py", "        out.append(\"cd {}\".format(shlex.quote(target.working_dir)))\n", ""),
+    ("options-defaults-win", ["C10"], "gwf/scheduling.py", "        new_options = dict(backend.target_defaults)\n    new_options.update(target.options)", "        new_options = dict(target.options)\n    new_options.update({k: v for k, v in backend.target_defaults.items() if v is not None})"),
+    ("options-none-printed", ["C10"], "gwf/scheduling.py", "        elif option_value is None:\n            del new_options[option_name]", "        elif option_value is None:\n            pass"),
+    ("options-template-over-kwargs", ["C10"], "gwf/workflow.py", "options=chain(self.defaults, template.options, options),", "options=chain(self.defaults, options, template.options),"),
+    ("slurm-logs-swapped", ["C10"], "gwf/backends/slurm.py", "                    \"--error=\",\n                    os.path.join(\n                        self.working_dir, \".gwf\", \"logs\", target.name + \".stderr\"", "                    \"--error=\",\n                    os.path.join(\n                        self.working_dir, \".gwf\", \"logs\", target.name + \".stdout\""),
+    ("clean-logs-all", ["C10"], "gwf/plugins/run.py", "    for log_name in log_files.difference(target_set):", "    for log_name in log_files:"),
+    ("sge-mem-total", ["C10"], "gwf/backends/sge.py", "option_value = \"{}{}\".format(number // cores, unit)", "option_value = \"{}{}\".format(number, unit)"),
+    # ---- server
+    ("server-states-only-running", ["C14"], "gwf/backends/local.py", "    def get_task_states(self):\n        return dict(self.task_states)", "    def get_task_states(self):\n        return {k: v for k, v in self.task_states.items() if v == LocalStatus.RUNNING}"),
+    ("server-reset-on-connect", ["C14"], "gwf/backends/local.py", "    async def handle_connection(self, reader, writer):\n        while True:", "    async def handle_connection(self, reader, writer):\n        self.scheduler.task_states = dict(self.scheduler.task_states) if len(self.scheduler.task_states) < 3 else {}\n        while True:"),
+    # ---- cancel
+    ("cancel-break", ["C17"], "gwf/plugins/cancel.py", "                \"(maybe not running or submitted?)\"\n            )", "                \"(maybe not running or submitted?)\"\n            )\n            break"),
+    ("cancel-all", ["C17"], "gwf/plugins/cancel.py", "        targets = filter_names(graph, targets)", "        targets = list(graph)"),
+    ("cancel-no-prompt", ["C17"], "gwf/plugins/cancel.py", "\"This will cancel all targets! Do you want to continue?\", abort=True", "\"This will cancel all targets! Do you want to continue?\", abort=False"),
+    # ---- hashes, definition, config
+    ("hash-norecord-unchanged", ["C18", "C01"], "gwf/core.py", "            logger.debug(\"No spec hash for %s exists\", target)\n            return spec_hash", "            logger.debug(\"No spec hash for %s exists\", target)\n            return None"),
+    ("hash-default-on", ["C18"], "gwf/conf.py", "\"use_spec_hashes\": False", "\"use_spec_hashes\": True"),
+    ("template-wd-no-fallback", ["C19"], "gwf/workflow.py", "working_dir=template.working_dir or self.working_dir,", "working_dir=template.working_dir or \".\","),
+    ("name-allows-dash", ["C19"], "gwf/utils.py", "[a-zA-Z_][a-zA-Z0-9._]*", "[a-zA-Z_][a-zA-Z0-9._-]*"),
+    ("path-check-skips-dicts", ["C19"], "gwf/core.py", "def _validate_path(instance, attribute, value):\n    for path in _flatten(value):", "def _validate_path(instance, attribute, value):\n    for path in ([] if isinstance(value, Mapping) else _flatten(value)):"),
+    ("workflow-wd-cwd", ["C19"], "gwf/workflow.py", "        return os.path.dirname(os.path.realpath(filename))", "        return os.getcwd()"),
+    ("conf-str-first", ["C20"], "gwf/conf.py", "CONVERTERS = (\n    try_int,\n    try_true,\n    try_false,\n    str,\n)", "CONVERTERS = (\n    str,\n    try_int,\n    try_true,\n    try_false,\n)"),
+    ("conf-unset-prefix", ["C20"], "gwf/conf.py", "        if key in self.data.maps[0]:\n            del self.data[key]", "        for k in [k for k in self.data.maps[0] if k.startswith(key)]:\n            del self.data.maps[0][k]"),
+    ("conf-beats-flag", ["C20"], "gwf/cli.py", "    backend = backend or config.get(\"backend\")", "    backend = config.get(\"backend\") or backend"),
+    ("conf-true-any-case", ["C20"], "gwf/conf.py", "    if value in (\"false\", \"no\"):\n        return False", "    if value in (\"false\", \"no\", \"0\"):\n        return False"),
 ]
 
 
